@@ -6,6 +6,8 @@
 (*   context  the nominal record of every type in every message context       *)
 (*            (opcode x section x class x RDLENGTH policy x position)         *)
 (*   pairs    (Pairs = TRUE) every pair of non-nominal variants of two fields *)
+(*   trunc    the nominal record of every type cut after every octet of its   *)
+(*            RDATA (never well-formed; safety only)                          *)
 (*   tlv      the item lists of the loop machine TlvLoop for its four         *)
 (*            carriers (options, parameters, strings, windows)                *)
 EXTENDS GrammarOps, TLC, Json
@@ -48,7 +50,10 @@ Tlv ==
 
 NoTlv == [carrier |-> "none", items |-> <<>>, stray |-> 0]
 
-Cases == Single \cup Context \cup PairSet
+\* every proper prefix of the nominal RDATA of every type (the driver unfolds the prefixes; RDLENGTH = prefix length)
+Trunc == {[kind |-> "trunc", t |-> t, pick |-> Nominal(t), ctx |-> Home(Types[t].code)] : t \in TIx}
+
+Cases == Single \cup Context \cup PairSet \cup Trunc
 
 Init == c \in Cases \cup {x \in Tlv : x.stray < CarrierHdr(x.carrier)}
 Next == UNCHANGED c
@@ -61,7 +66,7 @@ Case ==
           bytePreserved |-> BytePreserved(CarrierCode(c.carrier)),
           tlv |-> [carrier |-> c.carrier, items |-> c.items, stray |-> c.stray]]
     ELSE [kind |-> c.kind, type |-> Types[c.t].name, code |-> Types[c.t].code, tags |-> Tags(c.t, c.pick), ctx |-> c.ctx,
-          prims |-> Prims(c.t, c.pick), must |-> Must(c.t, c.pick, c.ctx),
+          prims |-> Prims(c.t, c.pick), must |-> c.kind # "trunc" /\ Must(c.t, c.pick, c.ctx),
           bytePreserved |-> BytePreserved(Types[c.t].code) /\ ~HasPtr(Prims(c.t, c.pick)), tlv |-> NoTlv]
 Emit == PrintT(<<"REPLAY", ToJson(Case)>>)
 =============================================================================
